@@ -2,19 +2,18 @@ from common import T_COMMON
 
 CFG = dict(
     theorems=[
-        # checkers evaluated by the driver on the implementation's output
-        "vertices_check_sound", "indices_check_sound", "winding_check_sound",
-        "delaunay_check_raw", "delaunay_check_sound", "sep_key", "sepEdge_sound", "overlap_check_sound",
-        "c20_checkers_sound",
-        # the in-circle determinant of the source
-        "inCircleDet_eq", "inCircleDet_on_circle", "inCircle_neg_of_inside", "circumcentre_exists", "inCircle_iff",
-        "orient_smul", "inCircleDet_smul",
-        # the model of the algorithm
-        "bw_vertices_are_inputs", "bw_indices_lt", "fanTri_not_ccw", "loop_inv", "bw_not_ccw",
-        "bw_cw_of_not_collinear", "bw_all_indices_lt", "superTriangle_cw", "pointFn_input", "pointFn_super",
-        "bowyerWatson_spec", "bowyerWatson_not_ccw", "bw_order_independent_partial",
-        "superTriangle_contains_box", "superTriangle_contains",
-        "mem_polygon_iff", "bw_polygon_order_independent", "bw_hole_order_independent",
+        "vertices_check_sound", "indices_check_sound", "winding_check_sound", "delaunay_check_sound",
+        "overlap_check_sound", "c20_checkers_sound", "inCircleDet_eq", "inCircleDet_on_circle",
+        "inCircle_neg_of_inside", "circumcentre_exists", "inCircle_iff", "inCircleDet_smul",
+        "bw_vertices_are_inputs", "bw_indices_lt", "fanTri_not_ccw", "bw_not_ccw", "bw_cw_of_not_collinear",
+        "bw_all_indices_lt", "superTriangle_cw", "bowyerWatson_spec", "bowyerWatson_not_ccw",
+        "bw_order_independent_partial", "superTriangle_contains_box", "superTriangle_contains", "mem_polygon_iff",
+        "bw_polygon_order_independent", "bw_hole_order_independent",
+    ],
+    # auxiliary lemmas used by the theorems above (kernel-checked with them; not counted as property theorems)
+    helper_theorems=[
+        "sep_key", "sepEdge_sound", "loop_inv", "pointFn_input", "pointFn_super", "orient_smul",
+        "delaunay_check_raw",
     ],
     streams=[dict(name="c20", n=dict(quick=240, thorough=6000))],
     trusted=T_COMMON + [
@@ -34,4 +33,22 @@ CFG = dict(
         "proved for the model only under positive width (superTriangle_cw); inputs of zero width (all x equal) are not in general position",
     ],
     assumptions=["float64 arithmetic in Go on amd64 is IEEE-754 without FMA contraction; for integer inputs in [0,64] all intermediate values of the predicates are integers/half-integers below 2^53, hence exact"],
+    manifest=dict(
+        text="PARTIAL: the main claim (Bowyer–Watson with the finite super-triangle yields a same-winding, positive-area, non-overlapping, "
+             "empty-circumcircle triangulation for EVERY point set in general position) is NOT a theorem; it is kept as def C20_full and decided "
+             "per input by verified checkers. Lean 4 theorems: the in-circle determinant is negative exactly when the point is strictly inside the "
+             "circumcircle, for the assumed (clockwise) winding, over any ordered field (inCircle_iff); the super-triangle as now constructed is "
+             "clockwise and strictly contains every input (positive width); in the algorithm model, for every map enumeration order: output "
+             "vertices are the inputs in order (definitional), no super-triangle index survives, no triangle ever inserted is counter-clockwise "
+             "(non-strict: orient ≤ 0; strict unless collinear), bad set and hole boundary of an insertion are order-independent; the EXECUTABLE "
+             "checkers for vertices, index range, strict uniform winding (= positive area), no input strictly inside a circumcircle, no two "
+             "triangles sharing an interior point are proved sound (c20_checkers_sound) and are run by the driver in exact integer arithmetic on "
+             "the IEEE bit patterns of the real BowyerWatson output: sound per input, sampled over inputs (10 generator classes, 3–200 points: "
+             "uniform, clustered, near-collinear hull, scaled, offset, wide, tall, low/small height). Model vs implementation triangle SETS "
+             "compared exactly on small-integer inputs, where Go's float predicates are exact.",
+        note="Trusted: Lean kernel + propext/Classical.choice/Quot.sound; harness and the driver's exact float decoding; hand transcription of "
+             "bowyer_watson.go (tied on integer inputs). Not proved: correctness of the incremental algorithm for all inputs (C20_full); Go evaluates "
+             "its predicates in float64 while the theorems are exact arithmetic; independence of the final triangle set from map order (observed). "
+             "As written C20 is satisfied by an empty result; hull coverage is not part of it.",
+        technique="Lean 4 proof of checker soundness + algorithm invariants; verified checker applied per input to the implementation's output in exact arithmetic; exact model-vs-impl comparison on integer inputs"),
 )
